@@ -30,11 +30,14 @@ Judge(T) ==
       Missing(c) == LRow(c.l).p = 0 \/ RRow(c.r).p = 0
       Sim(c) == IF T.simkind = "table"
                 THEN LET e == CHOOSE e \in DOMAIN T.simtab : T.simtab[e][1] = c.l /\ T.simtab[e][2] = c.r
-                     IN  <<T.simtab[e][3], T.simtab[e][4]>>
+                     IN  <<T.simtab[e][3], T.simtab[e][4], T.simtab[e][5]>>
                 ELSE LET x == SeqToSet(LRow(c.l).v)  y == SeqToSet(RRow(c.r).v)
-                     IN  IF x = {} /\ y = {} THEN <<1, 1>>
-                         ELSE <<Cardinality(x \cap y), Cardinality(x \cup y)>>
+                     IN  IF x = {} /\ y = {} THEN <<1, 1, 0>>
+                         ELSE <<Cardinality(x \cap y), Cardinality(x \cup y), 0>>
+      (* the similarity is the double nearest to Sim[1]/Sim[2], moved by Sim[3] in {-1, 0, 1} units in the *)
+      (* last place: a score one ulp off the threshold is not equal to it                                  *)
       KeepM(c) == IF Missing(c) THEN T.am = 1
+                  ELSE IF Sim(c)[1] * T.t[2] = T.t[1] * Sim(c)[2] THEN CmpInt(T.op, Sim(c)[3], 0)
                   ELSE CmpInt(T.op, Sim(c)[1] * T.t[2], T.t[1] * Sim(c)[2])
       KeepC(k) == T.fp[k] = 0
       Sel == IF T.kind = "matcher" THEN {k \in DOMAIN C : KeepM(C[k])}
@@ -50,7 +53,8 @@ Judge(T) ==
                 /\ r.ra = Cells(T.rcols, RRow(c.r), T.rout, T.rkey)
                 /\ IF T.sc = 0 THEN r.s[1] = 0
                    ELSE IF Missing(c) THEN r.s[1] = 1
-                   ELSE r.s[1] = 3 /\ r.s[3] > 0 /\ r.s[2] * Sim(c)[2] = Sim(c)[1] * r.s[3]
+                   ELSE /\ r.s[1] = (CASE Sim(c)[3] = 0 -> 3 [] Sim(c)[3] = 1 -> 5 [] OTHER -> 6)
+                        /\ r.s[3] > 0 /\ r.s[2] * Sim(c)[2] = Sim(c)[1] * r.s[3]
            ELSE r.x = c.x /\ r.ix = c.ix
       Header ==
         IF T.kind = "matcher"
@@ -66,7 +70,7 @@ Judge(T) ==
         LET c == C[k]  a == LRow(c.l)  b == RRow(c.r) IN
         IF Missing(c) THEN T.fp[k] = (IF T.am = 1 THEN 0 ELSE 1)
         ELSE LET x == SeqToSet(a.v)  y == SeqToSet(b.v)
-                 keep == a.nonempty = 1 /\ b.nonempty = 1 /\ CmpInt(T.op, Cardinality(x \cap y), T.t[1])
+                 keep == a.nonempty = 1 /\ b.nonempty = 1 /\ CmpInt(T.op, Cardinality(x \cap y) * T.t[2], T.t[1])
              IN  T.fp[k] = (IF keep THEN 0 ELSE 1)
   IN
   IF O.raised # ""
